@@ -712,6 +712,13 @@ def equal(ex, a, b):
         o = b if da else a
         if isinstance(o, dict):
             return mk_bool(to_dyn(ex, a) == to_dyn(ex, b))
+    if isinstance(a, Ref) and isinstance(b, Ref):
+        oa, ob = ex.obj(a), ex.obj(b)
+        if isinstance(oa, VAL.LObj) and isinstance(ob, VAL.LObj):
+            # an empty concrete list against a list of symbolic length
+            for x, y in ((oa, ob), (ob, oa)):
+                if x.items is not None and not x.items and y.items is None and y.sym is not None:
+                    return mk_bool(z3.Length(y.sym.t) == 0)
     return _orig_equal(ex, a, b)
 
 
@@ -727,6 +734,8 @@ def identical(ex, a, b):
                 return mk_bool(Dyn.is_none(x.t))
             if isinstance(y, bool):
                 return mk_bool(z3.And(Dyn.is_b(x.t), Dyn.bv(x.t) == y))
+            if isinstance(y, Ref):
+                return False  # a dynamic value is a scalar or an immutable dict value, never this heap object
             raise Unsupported('identity of a dynamic value')
     if is_str_sym(a) or is_str_sym(b):
         if a is None or b is None or isinstance(a, Ref) or isinstance(b, Ref):
@@ -1104,27 +1113,29 @@ def check_frame(self, path, tag):
 VG.Config.check_frame = check_frame
 
 # -- comprehension over d.items() / d.keys() / d.values() of a dict of symbolic size ---------------------------------------
-ORDER = z3.Function('dict_order', ItemsS, z3.SeqSort(_IntS))  # the keys in iteration order
+# The iteration of a dict is a sequence that is a function of the dict's content: ORDER (keys), ITEMS ((key, value) pairs),
+# VALUES.  A comprehension over it then goes through the engine's recursively defined map function (seqspec), exactly
+# like a comprehension over any other sequence of symbolic length: the same comprehension in the code and in a clause is
+# the same function applied to the same sequence.
+_PAIR = ('tup', ('str', 'dyn'))
+ORDER = z3.Function('dict_order', ItemsS, z3.SeqSort(_IntS))
+ITEMS = z3.Function('dict_items', ItemsS, z3.SeqSort(sort_of(_PAIR)))
+VALUES = z3.Function('dict_values', ItemsS, z3.SeqSort(Dyn))
 
 _orig_symbolic_comprehension = VG.Config.symbolic_comprehension
 
 
-def order_facts(ex, t):
-    """the iteration order of a dict enumerates its keys exactly once (valid for every dict)"""
+def items_seq(ex, t, what):
     a = Dyn.items(t)
-    ks = ORDER(a)
-    done = ex.__dict__.setdefault('order_done', set())
-    if a.get_id() in done:
-        return ks
-    done.add(a.get_id())
-    ex.keep.append(a)
-    i, j, k = z3.Int(ex.fresh_name('oi')), z3.Int(ex.fresh_name('oj')), z3.Int(ex.fresh_name('ok'))
-    n = z3.Length(ks)
-    ex.add_def(n == CARD(a))
-    ex.add_def(z3.ForAll([i], z3.Implies(z3.And(i >= 0, i < n), z3.Not(Dyn.is_absent(z3.Select(a, ks[i]))))))
-    ex.add_def(z3.ForAll([i, j], z3.Implies(z3.And(i >= 0, i < j, j < n), ks[i] != ks[j])))
-    ex.add_def(z3.ForAll([k], z3.Implies(z3.Not(Dyn.is_absent(z3.Select(a, k))), z3.Exists([i], z3.And(i >= 0, i < n, ks[i] == k)))))
-    return ks
+    f, kind = {'keys': (ORDER, 'str'), 'items': (ITEMS, _PAIR), 'values': (VALUES, 'dyn')}[what]
+    sq = f(a)
+    done = ex.__dict__.setdefault('items_done', set())
+    if sq.get_id() not in done and not ex.quant:
+        done.add(sq.get_id())
+        ex.keep.append(sq)
+        size_facts(ex, t)
+        ex.add_def(z3.Length(sq) == CARD(a))  # one element per key
+    return Sym(sq, ('seq', kind))
 
 
 def _is_dict_view_call(n):
@@ -1133,49 +1144,89 @@ def _is_dict_view_call(n):
 
 def symbolic_comprehension(self, path, elt, gens, node):
     ex = path
-    if len(gens) == 1 and not gens[0].is_async and not gens[0].ifs and _is_dict_view_call(gens[0].iter):
-        it = ex.eval(gens[0].iter)
+    if len(gens) == 1 and not gens[0].is_async and _is_dict_view_call(gens[0].iter):
+        it = ex.eval(gens[0].iter)  # (.items() / .keys() / .values() of a dict: no side effect, evaluating it here is harmless)
         if isinstance(it, JItems):
             return ('sym', j_comprehension(ex, elt, gens[0], it))
     return _orig_symbolic_comprehension(self, path, elt, gens, node)
 
 
 def j_comprehension(ex, elt, g, it):
-    """[elt for target in d.items()] for a dict of symbolic size: the element expression is evaluated once, for an
-    arbitrary position i of the iteration order (obligations inside it are proved for every element); the result is the
-    sequence R with len(R) == len(d) and R[i] == elt(i) for every i"""
+    """[elt for target in d.items() if cond]: seqspec's map/filter function over the dict's item sequence.  The element
+    expression is evaluated once for an arbitrary element e, of which is known what holds of every element of the
+    iteration: its key is a key of d and its value is d[key] (obligations inside elt are therefore proved for every element)"""
     from .values import Frame
 
     if ex.quant:
         raise Unsupported('nested symbolic comprehension')
     t = _recv_term(ex, it.recv)
-    size_facts(ex, t)
-    ks = order_facts(ex, t)
-    i = z3.Int(ex.fresh_name('ci'))
-    rng = z3.And(i >= 0, i < z3.Length(ks))
-    key = mk_str(ks[i])
-    val = mk_dyn(cell(t, ks[i]))
+    seq = items_seq(ex, t, it.what)
+    in_kind = seq.k[1]
+    in_sort = sort_of(in_kind)
+    e = z3.Const(ex.fresh_name('elem'), in_sort)
+    ev_e = M.elem_to_value(ex, e, in_kind)
+    if it.what == 'items':
+        _, _, projs = VAL.tuple_parts(_PAIR)
+        known = [has(t, projs[0](e)), projs[1](e) == cell(t, projs[0](e))]
+    elif it.what == 'keys':
+        known = [has(t, e)]
+    else:
+        known = [z3.Not(Dyn.is_absent(e))]
     frame = ex.alloc(Frame())
     saved_scope = ex.scope
     ex.scope = [frame] + list(ex.scope)
     n0 = len(ex.pc)
-    ex.pc.append(rng)
-    ex.pc.append(z3.Not(Dyn.is_absent(cell(t, ks[i]))))
+    ex.pc.extend(known)
     ex.quant += 1
+    ex.spec_mode += 1
     try:
-        ex.assign(g.target, key if it.what == 'keys' else val if it.what == 'values' else (key, val))
+        ex.assign(g.target, ev_e)
+        conds = [ex.truth(ex.eval(c)) for c in g.ifs]
         ev = ex.eval(elt)
     finally:
         ex.quant -= 1
+        ex.spec_mode -= 1
         ex.scope = saved_scope
-    added = ex.pc[n0 + 2:]
     del ex.pc[n0:]
+    cterm = z3.And(*[zbool(c) if not isinstance(c, bool) else z3.BoolVal(c) for c in conds]) if conds else z3.BoolVal(True)
     out_kind = M.guess_kind(ex, ev)
     mterm = M.value_to_elem(ex, ev, out_kind)
-    r = ex.fresh_sym(('seq', out_kind), 'comp')
-    ex.add_def(z3.Length(r.t) == z3.Length(ks))
-    ex.add_def(z3.ForAll([i], z3.Implies(z3.And(rng, *added), r.t[i] == mterm)))
-    return r
+    out_sort = sort_of(out_kind)
+    fv, seen = {}, set()
+    SS._free_consts(cterm, fv, seen)
+    SS._free_consts(mterm, fv, seen)
+    fv.pop(e.decl().name(), None)
+    names = sorted(fv)
+    actuals = [fv[n] for n in names]
+    ph_e = z3.Const('__e', in_sort)
+    phs = [z3.Const(f'__p{i}', a.sort()) for i, a in enumerate(actuals)]
+    sub = [(e, ph_e)] + list(zip(actuals, phs))
+    c_can = z3.substitute(cterm, *sub)
+    m_can = z3.substitute(mterm, *sub)
+    key = (c_can.sexpr(), m_can.sexpr(), str(in_sort), str(out_sort), tuple(str(p.sort()) for p in phs))
+    ent = SS._REC_CACHE.get(key)
+    if ent is None:
+        idx = len(SS._REC_CACHE)
+        S_ = z3.Const('__s', z3.SeqSort(in_sort))
+        F = z3.RecFunction(f'comp{idx}', z3.SeqSort(in_sort), *[p.sort() for p in phs], z3.SeqSort(out_sort))
+        head = S_[0]
+        c_h = z3.substitute(c_can, (ph_e, head))
+        m_h = z3.substitute(m_can, (ph_e, head))
+        tail = z3.Extract(S_, 1, z3.Length(S_) - 1)
+        body = z3.If(z3.Length(S_) == 0, z3.Empty(z3.SeqSort(out_sort)), z3.Concat(z3.If(c_h, z3.Unit(m_h), z3.Empty(z3.SeqSort(out_sort))), F(tail, *phs)))
+        z3.RecAddDefinition(F, [S_] + phs, body)
+        ent = {'F': F, 'idx': idx, 'S': S_, 'phs': phs, 'c': c_can, 'm': m_can, 'ph_e': ph_e, 'identity': False, 'in_sort': in_sort, 'out_sort': out_sort, 'lemmas_done': False}
+        SS._REC_CACHE[key] = ent
+    F = ent['F']
+    res = F(seq.t, *actuals)
+    for nm, ih, goal in SS._lemmas(ent):
+        name = ex.cfg.obl_name(ex, 'lemma', f'comp{ent["idx"]}-{nm}')
+        kkey = ('lemma', name)
+        if not any(o.key == kkey for o in ex.obligations):
+            ex.obligations.append(E.Obligation(name, 'lemma', list(ih), goal, ex.cur_loc, kkey, {'def_ids': set()}))
+    for f in SS._instances(ent, seq.t, actuals, res):
+        ex.add_def(f)
+    return Sym(res, ('seq', out_kind))
 
 
 VG.Config.symbolic_comprehension = symbolic_comprehension
@@ -1289,23 +1340,82 @@ def _has_quantifier(fs):
     return False
 
 
+def _has_var(t, seen):
+    if t.get_id() in seen:
+        return seen[t.get_id()]
+    r = z3.is_var(t) or any(_has_var(c, seen) for c in t.children())
+    seen[t.get_id()] = r
+    return r
+
+
+def _ground_item_arrays(t, acc, seen, vseen):
+    """ground array terms items(X) (also inside quantifier bodies) and the ground index terms they are read at"""
+    if t.get_id() in seen:
+        return
+    seen.add(t.get_id())
+    if z3.is_quantifier(t):
+        _ground_item_arrays(t.body(), acc, seen, vseen)
+        return
+    if z3.is_app(t):
+        if t.sort() == ItemsS and t.decl().kind() == z3.Z3_OP_DT_ACCESSOR and not _has_var(t, vseen):
+            acc.setdefault(t.get_id(), (t, {}))
+        if t.decl().kind() == z3.Z3_OP_SELECT and t.arg(0).sort() == ItemsS and not _has_var(t, vseen):
+            a = t.arg(0)
+            if z3.is_app(a) and a.decl().kind() == z3.Z3_OP_DT_ACCESSOR:
+                acc.setdefault(a.get_id(), (a, {}))[1][t.arg(1).get_id()] = t.arg(1)
+        for c in t.children():
+            _ground_item_arrays(c, acc, seen, vseen)
+
+
 def discharge(ob, timeout_ms=20000, seed=0, both=False):
-    """cover obligations (is the precondition satisfiable?) whose hypotheses contain quantifiers: z3's default
-    configuration gives up on them; model-based quantifier instantiation alone finds the model at once"""
+    """cover obligations (is the precondition satisfiable?) whose hypotheses contain quantifiers over dict items: z3's
+    default search is erratic on them.  A model in which every dict has no keys besides the ones the formula reads
+    (a strengthening, so its satisfiability implies that of the precondition) is found at once."""
     if ob.expect_sat and _has_quantifier(ob.pc):
         import time as _t
 
         t0 = _t.time()
-        s = z3.Solver()
-        s.set("timeout", min(int(timeout_ms), 10000))
-        s.set('smt.auto_config', False)
-        s.set('smt.mbqi', True)
-        s.set('smt.ematching', False)
+        acc, seen, vseen = {}, set(), {}
         for p in ob.pc:
-            s.add(p)
-        if s.check() == z3.sat:
-            return {'status': 'proved', 'backend': 'z3', 'time': _t.time() - t0, 'detail': 'cover sat (mbqi)'}
-    return _orig_discharge(ob, timeout_ms, seed, both)
+            _ground_item_arrays(p, acc, seen, vseen)
+        for cfg in ({}, {'smt.auto_config': False, 'smt.mbqi': True, 'smt.ematching': False}):
+            s = z3.Solver()
+            s.set('timeout', min(int(timeout_ms), 8000))
+            for k, v in cfg.items():
+                s.set(k, v)
+            for p in ob.pc:
+                s.add(p)
+            for a, idx in acc.values():
+                base = EMPTY_ITEMS
+                for k in idx.values():
+                    base = z3.Store(base, k, z3.Select(a, k))
+                s.add(a == base)
+            if s.check() == z3.sat:
+                return {'status': 'proved', 'backend': 'z3', 'time': _t.time() - t0, 'detail': 'cover sat (dicts with finite support)'}
+    r = _orig_discharge(ob, timeout_ms, seed, both)
+    if r.get('status') == 'unknown' and not ob.expect_sat and _has_quantifier(ob.pc):
+        # the same strengthening for a counter-model: a model of pc and not goal in which the dicts have finite support is
+        # a model of pc and not goal
+        import time as _t
+
+        t0 = _t.time()
+        fs = list(ob.pc) + [z3.Not(ob.goal)]
+        acc, seen, vseen = {}, set(), {}
+        for p in fs:
+            _ground_item_arrays(p, acc, seen, vseen)
+        if acc:
+            s = z3.Solver()
+            s.set('timeout', min(int(timeout_ms), 8000))
+            for p in fs:
+                s.add(p)
+            for a, idx in acc.values():
+                base = EMPTY_ITEMS
+                for k in idx.values():
+                    base = z3.Store(base, k, z3.Select(a, k))
+                s.add(a == base)
+            if s.check() == z3.sat:
+                return {'status': 'refuted', 'backend': 'z3', 'time': r.get('time', 0.0) + _t.time() - t0, 'model': s.model(), 'detail': 'counter-model with finite dicts'}
+    return r
 
 
 S.discharge = discharge
